@@ -9,7 +9,7 @@
    nones_are_zeros.  [outcome_equiv] compares emitted rationals with Qeq. *)
 From Coq Require Import NArith QArith List.
 From Verif Require Import model.Common gen.Formula model.Formula proofs.FormulaFacts proofs.FormulaHO
-  proofs.FormulaSY proofs.FormulaTok.
+  proofs.FormulaSY proofs.FormulaTok proofs.FormulaSum proofs.FormulaSteps.
 Import ListNotations.
 Local Open Scope Q_scope.
 
@@ -19,6 +19,22 @@ Theorem C05_table_total : forall o, lookup_prec (oper_name o) operator_precedenc
 Proof. exact prec_total. Qed.
 Theorem C05_table_order : forall a b, (prec a <? prec b)%Z = (rank a <? rank b)%nat.
 Proof. exact prec_order. Qed.
+
+(* The step semantics of the model is the `apply` body of each step class as TRANSLATED from
+   _formula_steps.py on this run (gen/Formula.v), instantiated with the model's value operations
+   [vops rnd] (IEEE-style add/sub/mul, division raising on a zero divisor, Python < and ==). *)
+Theorem C05_steps_as_translated : forall rnd fv st,
+  Adder_apply (vops rnd) st = exec_step rnd fv SAdd st /\
+  Subtractor_apply (vops rnd) st = exec_step rnd fv SSub st /\
+  Multiplier_apply (vops rnd) st = exec_step rnd fv SMul st /\
+  Divider_apply (vops rnd) st = exec_step rnd fv SDiv st /\
+  Maximizer_apply (vops rnd) st = exec_step rnd fv SMax st /\
+  Minimizer_apply (vops rnd) st = exec_step rnd fv SMin st /\
+  Consumption_apply (vops rnd) st = exec_step rnd fv SCons st /\
+  Production_apply (vops rnd) st = exec_step rnd fv SProd st /\
+  (forall lo hi, Clipper_apply (vops rnd) lo hi st = exec_step rnd fv (SClip lo hi) st) /\
+  (forall c, ConstantValue_apply (vops rnd) c st = exec_step rnd fv (SConst c) st).
+Proof. exact steps_as_translated. Qed.
 
 (* Tokenizer: every spelling of a token list -- '#' + decimal digits, the six operator
    characters, any white-space (blank, \n, \r, \t) around tokens -- reads back as that list. *)
@@ -74,6 +90,34 @@ Theorem C05_shared_fetcher : forall nz ts env n, In (SFetch n) (fst (compile nz 
   fetch_val (nz_flag (snd (compile nz ts)) n) (env n) = fetch_val nz (env n).
 Proof. exact compile_fetch. Qed.
 
+(* Link to C12 (coq/model/Graph.v describes every generated formula as a list of signed terms
+   (id, sign, nones_are_zeros) and its harness checks the real generators' steps against it).
+   The call sequence ALL generators in _formula_generators/*.py use -- push_component_metric for
+   the first term, then push_oper("+") or push_oper("-") followed by push_component_metric for
+   each further term, then build(); no parentheses, constants or clippers occur there; an empty
+   component set is the single term NON_EXISTING_COMPONENT_ID with nones_are_zeros=True --
+   compiles to a program whose round value is  sum_i sign_i * value_i  (left to right), where a
+   missing value counts 0 on an id whose first push said nones_are_zeros and makes the sample
+   None otherwise.  Exact arithmetic ("-" after "+" is re-associated a + (b - c) by the table). *)
+Theorem C05_signed_sum : forall n0 z0 rest env,
+  outcome_equiv (run_round Num (compile_signed n0 z0 rest) env)
+                (Emit (signed_sum (fun n => fetch_D (signed_flag n0 z0 rest n) (env n)) n0 rest)).
+Proof. exact signed_round. Qed.
+(* the sum is undefined (None) exactly when some term's contribution is *)
+Theorem C05_signed_sum_none : forall fd n0 rest,
+  signed_sum fd n0 rest = None <-> fd n0 = None \/ exists t, In t rest /\ fd (st_id t) = None.
+Proof. exact signed_sum_none_iff. Qed.
+(* for EVERY rounding function: a sample in every round, None when a term is missing on a
+   stream that is not zero-configured *)
+Theorem C05_signed_always_emits : forall rnd n0 z0 rest env,
+  run_round rnd (compile_signed n0 z0 rest) env <> Dropped.
+Proof. exact signed_always_emits. Qed.
+Theorem C05_signed_missing_none : forall rnd n0 z0 rest env n,
+  n = n0 \/ (exists t, In t rest /\ st_id t = n) ->
+  missing (env n) = true -> signed_flag n0 z0 rest n = false ->
+  run_round rnd (compile_signed n0 z0 rest) env = Emit None.
+Proof. exact signed_missing_none. Qed.
+
 (* non-vacuity: "#1 - #2 * ( ( #3 + #1 ) ) / #2 - #3" with 7, 2, 5: 7 - 2*12/2 - 5 = -10
    (evaluating left to right without precedence would give 25); the string tokenizes to pp e *)
 Example C05_nonvacuous :
@@ -85,6 +129,7 @@ Example C05_nonvacuous :
     (tokenize [35;49;32;45;35;50;42;40;9;40;35;51;43;35;49;41;41;47;35;48;50;10;45;32;35;51]%N) = Some true.
 Proof. vm_compute. repeat split. Qed.
 
+Print Assumptions C05_steps_as_translated.
 Print Assumptions C05_table_total.
 Print Assumptions C05_table_order.
 Print Assumptions C05_tokenize.
@@ -96,3 +141,7 @@ Print Assumptions C05_ho_program.
 Print Assumptions C05_ho.
 Print Assumptions C05_ho_exact.
 Print Assumptions C05_shared_fetcher.
+Print Assumptions C05_signed_sum.
+Print Assumptions C05_signed_sum_none.
+Print Assumptions C05_signed_always_emits.
+Print Assumptions C05_signed_missing_none.
